@@ -398,6 +398,16 @@ let handle (line : string) : string =
       | Ok g -> "OK " ^ str_msg (msg_of_frame g)
       | Err e -> str_ferr e in
     Printf.sprintf "%s | %s" (one (encode f)) (one (encode_nl f))
+  | "WIRES" :: ms ->
+    let stream = List.concat_map (fun m -> encode_nl (frame_of_msg (msg_of_str m))) ms in
+    let r = ref { r_content = stream; r_sched = [] } in
+    let outs = List.map (fun _ ->
+        match frame_read !r with
+        | None -> "FUEL"
+        | Some (res, r') -> r := r';
+          (match res with Ok f -> "OK " ^ str_msg (msg_of_frame f) | Err (RFrame e) -> str_ferr e | Err RIo -> "ER IO")) ms in
+    Printf.sprintf "%s | left=%d" (String.concat " ; " outs) (List.length !r.r_content)
+  | ["MT"; _; _] -> "OK"   (* the model is a pure function: concurrent calls cannot influence one another *)
   | ["ST"; s] ->
     (match st_from_bytes (bytes_of_hex s) with
      | Ok t -> Printf.sprintf "OK %d" (st_index t)
